@@ -109,6 +109,23 @@ pub mod rng {
         { unimplemented!() }
     }
 
+    /// rand_distr::Normal { mean, std_dev }: `sample` is `mean + std_dev * z` with z one StandardNormal draw
+    pub struct Normal { pub mean: Fl, pub std_dev: Fl }
+    pub struct NormalError;
+    impl core::fmt::Debug for NormalError { #[verifier::external_body] fn fmt(&self, f: &mut core::fmt::Formatter<'_>) -> core::fmt::Result { Ok(()) } }
+    impl Normal {
+        /// Err for a non-finite standard deviation (rand_distr: `BadVariance`); nothing is promised for other inputs beyond the fields
+        #[verifier::external_body]
+        pub fn new(mean: Fl, std_dev: Fl) -> (r: Result<Normal, NormalError>)
+            ensures val(std_dev) is Fin ==> r is Ok, r is Ok ==> r->Ok_0.mean == mean && r->Ok_0.std_dev == std_dev
+        { unimplemented!() }
+        #[verifier::external_body]
+        pub fn sample(&self, rng: &mut SmallRng) -> (r: Fl)
+            ensures r == mk(xr_add(val(self.mean), xr_mul(val(self.std_dev), val(normal_out(state(*old(rng))))))),
+                state(*final(rng)) == normal_next(state(*old(rng)))
+        { unimplemented!() }
+    }
+
     /// R-sampleiter: `(&mut rng).sample_iter(StandardNormal).take(n).collect::<Vec<T>>()` —
     /// rand documents `sample_iter` as repeated `sample`; `take(n).collect()` keeps the first n.
     #[verifier::external_body]
